@@ -223,6 +223,34 @@ Theorem C39_handshake_keys_distinct : forall p q, id20_wfb p = true -> id20_wfb 
 Proof. exact Proof.C39_hs.hs_print_keys_distinct. Qed.
 Print Assumptions C39_handshake_keys_distinct.
 
+(* ---------------- the two clauses of the property, uniformly over all ten codecs ---------------- *)
+
+(* clause 1: every value of each type prints to a text that parses back to exactly that value *)
+Theorem C39_roundtrip_all : forall c v, in_domain c v = true ->
+  exists p, print c v = Ok p /\ parse c p = Ok (granular c v).
+Proof. exact Proof.C39.print_ok_facts. Qed.
+Print Assumptions C39_roundtrip_all.
+
+(* clause 2: only well-formed input is accepted, the accepted value belongs to the type, and printing
+   it parses to the same value *)
+Theorem C39_accepts_wellformed_only_all : forall c s v, forallb is_byte s = true -> parse c s = Ok v ->
+  input_wfb c s = true /\ in_domain c v = true /\ exists p, print c v = Ok p /\ parse c p = Ok v.
+Proof. exact Proof.C39.parse_ok_facts. Qed.
+Print Assumptions C39_accepts_wellformed_only_all.
+
+(* and conversely the well-formed texts are never rejected *)
+Theorem C39_wellformed_accepted_all : forall c s, parse c s = Err -> must_accept c s = false.
+Proof. exact Proof.C39.parse_err_facts. Qed.
+Print Assumptions C39_wellformed_accepted_all.
+
+(* no parser and no printer panics, on any input *)
+Theorem C39_parse_never_panics : forall c s, parse c s <> Panic.
+Proof. exact Proof.C39.parse_no_panic. Qed.
+Print Assumptions C39_parse_never_panics.
+Theorem C39_print_never_panics : forall c v, print c v <> Panic.
+Proof. exact Proof.C39.print_no_panic. Qed.
+Print Assumptions C39_print_never_panics.
+
 (* ---------------- executable form, used on the implementation's observations ---------------- *)
 
 Theorem C39_check_sound : forall c, case_bytes c = true -> C39_check (model_case c) = true.
